@@ -60,8 +60,8 @@ def configs(quick):
     if quick:
         out.append(('1m', [], 'futures', ('minutes', 'UDu', 5), 6))
         out.append(('1m', [], 'spot', ('minutes', 'UDu', 5), 3))
-        out.append(('3m', [], 'futures', ('minutes', 'UDGg', 6), 3))
-        out.append(('3m', [], 'spot', ('minutes', 'UDud', 6), 1))
+        out.append(('3m', [], 'futures', ('minutes', 'UDGg', 5), 6))
+        out.append(('3m', [], 'spot', ('minutes', 'UDud', 5), 3))
         out.append(('5m', [], 'futures', ('blocks', 5, P4, 3), 6))
         out.append(('5m', [], 'spot', ('blocks', 5, P4b, 3), 3))
         out.append(('3m', [['BTC-USDT', '15m']], 'futures', ('blocks', 3, P4, 5), 3))
@@ -172,6 +172,12 @@ def run(ctx):
         for minutes, wname in words(gen):
             for pname, spec in P:
                 jobs.append((minutes, wname, tf, droutes, kind, pname, spec, emb))
+    # micro-priced and very expensive symbols: the 3m futures configuration again on each extreme scale
+    for sc in core.SCALES:
+        tf, droutes, kind, gen, npr = [c for c in configs(ctx.quick) if c[0] == '3m' and c[2] == 'futures' and not c[1]][0]
+        for minutes, wname in words(('minutes', 'UDG', 6) if ctx.quick else gen):
+            for pname, spec in programs(sc[1], sc[2], tf, kind)[:3]:
+                jobs.append((minutes, wname, tf, droutes, kind, pname, spec, sc))
     res = core.pmap(_diff, jobs, chunksize=32)
     sigs = set()
     for j, r in zip(jobs, res):
